@@ -69,6 +69,44 @@ def run(chk, w):
                 if s.op == "store" and s["val"].get("k") == "inst" and s["val"]["id"] == i.id:
                     data_cells.add(s["ptr"]["id"])
 
+    # ---- POLL: a byte is used only after the poll that produced it reported success
+    chk.rule("C02-POLL", "the value returned by the read callback is used (stored to a buffer, compared, passed on) only after its success flag was tested")
+    for (f, c) in readers:
+        flag = f.resolve(rules.strip_casts(f, c.args[0]))
+        if flag is None or flag.op != "alloca":
+            chk.abstain("C02-POLL", "success flag is not a local", c.loc())
+            continue
+        tv, tcells = _taint(f, c)
+        def is_test(x, f=f, flag=flag):
+            if x.op == "br" and "cond" in x.d:
+                return any(l["ptr"].get("k") == "inst" and l["ptr"]["id"] == flag.id for l in _cond_loads(f, x["cond"]))
+            return False
+        def is_sink(x, f=f, tv=tv, tcells=tcells, c=c):
+            if x.id == c.id:
+                return False
+            if x.op == "store":
+                if x["val"].get("k") == "inst" and x["val"]["id"] in tv:
+                    p_ = f.resolve(x["ptr"])
+                    return not (p_ is not None and p_.op == "alloca" and p_.id in tcells)
+                return False
+            if x.op in ("br", "switch") and "cond" in x.d:
+                return any(l.id in tv for l in _cond_loads(f, x["cond"])) or (x["cond"].get("k") == "inst" and x["cond"]["id"] in tv)
+            if x.op == "call":
+                return any(a.get("k") == "inst" and a["id"] in tv for a in x.args)
+            if x.op == "ret" and "val" in x.d:
+                return x["val"].get("k") == "inst" and x["val"]["id"] in tv
+            return False
+        def stop(x, c=c, is_test=is_test):
+            # the flag was tested, or another poll overwrites the byte
+            return is_test(x) or (x.op == "call" and x.callee is None and x.id != c.id and len(x.args) == 1)
+        p_ = rules.exists_path(f, c, is_sink, stop)
+        if p_:
+            chk.violation("C02-POLL", f.name, "unchecked-poll", c.loc(),
+                          "the byte polled at line %d is used at line %d without testing the success flag of that poll (%s): an empty poll injects a garbage byte into the stream" % (c.line, p_[-1].line, rules.path_text(p_)))
+        else:
+            chk.ok("C02-POLL", 1, {"poll": c.loc(), "function": f.name})
+    chk.floor("read_callback_calls", len(readers), 4)
+
     # ---- GATE
     chk.rule("C02-GATE", "the splitter is called only on the true edge of 'CRC accumulator == 0'")
     calls = [c for c in asm.calls() if c.callee == split.name or rules.call_reaches(P, c, {disp.name})]
@@ -269,3 +307,50 @@ def _progress(chk, w, E, split):
             chk.violation("C02-PROG", split.name, "no-progress", s.loc(), "the read position may advance by %s bytes: a zero step stalls the receiver" % lo)
     if not found:
         chk.abstain("C02-PROG", "position update 'i += j' not recognised", split.name)
+
+
+def _cond_loads(f, o, depth=0, seen=None):
+    """loads feeding a condition through compares, casts and bit operations"""
+    seen = seen if seen is not None else set()
+    i = f.resolve(o) if o and o.get("k") == "inst" else None
+    if i is None or depth > 8 or i.id in seen:
+        return []
+    seen.add(i.id)
+    if i.op == "load":
+        return [i]
+    out = []
+    for k in ("a", "b", "cond"):
+        if k in i.d and isinstance(i[k], dict):
+            out += _cond_loads(f, i[k], depth + 1, seen)
+    if i.op == "phi":
+        for b, v in i["incoming"]:
+            out += _cond_loads(f, v, depth + 1, seen)
+    return out
+
+
+def _taint(f, c):
+    """values derived from the result of call c (through casts/arithmetic and the locals it is stored into); returns (value ids, cell ids)"""
+    tv = {c.id}
+    cells = set()
+    changed = True
+    while changed:
+        changed = False
+        for i in f.all_insts():
+            if i.id in tv:
+                continue
+            if i.op == "store":
+                if i["val"].get("k") == "inst" and i["val"]["id"] in tv:
+                    p_ = f.resolve(i["ptr"])
+                    if p_ is not None and p_.op == "alloca" and p_.id not in cells and "size" in p_.d and (p_.get("size") or 0) <= 8:
+                        cells.add(p_.id)
+                        changed = True
+                continue
+            hit = False
+            if i.op == "load":
+                hit = i["ptr"].get("k") == "inst" and i["ptr"]["id"] in cells
+            elif i.op in ("zext", "sext", "trunc", "xor", "and", "or", "add", "sub", "icmp", "shl", "lshr"):
+                hit = any(k in i.d and isinstance(i[k], dict) and i[k].get("k") == "inst" and i[k]["id"] in tv for k in ("a", "b"))
+            if hit:
+                tv.add(i.id)
+                changed = True
+    return tv, cells
